@@ -291,8 +291,9 @@ prop('C11',
      design_ref='DESIGN.md §5 C11')
 
 prop('C10',
-     modules=['LarkVerif.Threads', 'LarkVerif.Indenter', 'LarkVerif.Props.C10'],
-     theorems=['Props.C10.lazy_init_safe_under_every_schedule', 'Props.C10.publish_before_merge_is_unsafe', 'Props.C10.indenter_history_independent', 'ThProto.run_fixed_safe'],
+     modules=['LarkVerif.Threads', 'LarkVerif.Indenter', 'LarkVerif.Instance', 'LarkVerif.Extracted', 'LarkVerif.Props.C10'],
+     theorems=['Props.C10.lazy_init_safe_under_every_schedule', 'Props.C10.publish_before_merge_is_unsafe', 'Props.C10.indenter_history_independent', 'ThProto.run_fixed_safe',
+               'Props.C10.instance_history_independent', 'Props.C10.instance_state_is_the_modelled_state', 'InstProto.step_spec', 'InstProto.same_call_same_result'],
      fingerprints=['lark/lexer.py:BasicLexer._build_scanner', 'lark/lexer.py:BasicLexer.next_token', 'lark/indenter.py:Indenter.process', 'lark/indenter.py:Indenter._process', 'lark/parsers/earley.py:Parser.parse',
                    'lark/parser_frontends.py:ParsingFrontend.scan'],
      rule='(a) the order "merge user callbacks / publish self.callback" is read from the current source text of BasicLexer._build_scanner and selects the Lean model variant; all 70 interleavings of two real threads (thorough: plus 400 sampled '
@@ -300,10 +301,10 @@ prop('C10',
           'read callback) and compared with the Lean small-step run; every token must carry the callback\'s effect. (b) 4 free-running threads x several rounds on fresh instances (switch interval 1 microsecond) for LALR/Earley configurations. '
           '(c) random histories of 3-9 calls (parse, lex, scan, parse_interactive; succeeding, failing, generators abandoned after k items; other instances created in between; every fourth history with a stateful Indenter post-lexer) on ONE '
           'instance, each call compared with the same call on a fresh instance. Non-trivial: schedules that interleave, histories of > 2 calls; distinct by canonical hash. A quarter of the histories use instances that share one cache location under differing options (priority None/normal/invert, keep_all_tokens, maybe_placeholders, lexer, propagate_positions): every instance created through the location is compared with an uncached build of its own options. 30% of the histories use an Earley instance (basic/dynamic/dynamic_complete, resolve/explicit); the empty text and blank-only texts occur after other calls; other instances are also compiled from the shared instance\'s Grammar object under another priority mode (fixed finding F26).',
-     not_proved=['history independence of the whole instance (search scanner, per-state lexers, PatternRE._width, TreeMatcher cache) has no Lean invariant yet: it is compared call by call against fresh instances',
+     not_proved=['history independence is proved for the InstProto model (persistent state = lazily initialised fields computed from the configuration); that the real classes are such instances rests on (a) the state inventory extracted from the source on every run matching the modelled list (obligation instance_state_is_the_modelled_state, by decide) and (b) the call-by-call comparison against fresh instances; that each lazy field\'s initialiser reads nothing but the configuration is not proved',
                  'atomicity granularity (one attribute read/write under the GIL) is assumed; free-threaded builds and C-level races inside re are outside the model'],
      assumptions=['attribute reads/writes are atomic under the GIL', 'user callbacks are stateless (the property excludes stateful ones)'],
-     level_text='Theorems: with the publish-once ordering (the ordering found in the current source on every run) every schedule of any number of threads through the lazy scanner/callback initialisation gives every token the user callbacks; '
+     level_text='Theorems: for an instance whose only persistent state is lazily initialised fields, every call after any history of completed, failed and abandoned calls returns what it returns on a fresh instance (instance_history_independent); the attributes written after construction in the current source are exactly the modelled ones (regenerated from the source on every run, by decide); with the publish-once ordering (the ordering found in the current source on every run) every schedule of any number of threads through the lazy scanner/callback initialisation gives every token the user callbacks; '
                 'the publish-before-merge ordering has a concrete failing schedule; the Indenter\'s outcome is independent of earlier streams. The Lean small-step semantics is run against real threads stepped gate by gate through '
                 'every 2-thread interleaving.',
      level_note='Trusted: Lean kernel, standard axioms, harness (gate scheduler). Modelled not verified: CPython GIL granularity; partial: runtime races outside the modelled attributes are only stress-tested.',
